@@ -181,14 +181,14 @@ func (p *parser) on_parser_qualif(assoc Token, _ Token, prec Token, _ Token) *as
 		panic("not-reached")
 	}
 
-	var err error
-	q.Precedence, err = strconv.Atoi(string(prec.Str))
-	if err != nil {
-		panic(err)
+	precedence, err := strconv.Atoi(string(prec.Str))
+	if err != nil || precedence <= 0 {
+		p.errs.Errorf(
+			prec.Pos,
+			"invalid precedence %s: must be a positive integer", prec.Str)
+		return q
 	}
-	if q.Precedence <= 0 {
-		panic("not-reached")
-	}
+	q.Precedence = precedence
 
 	return q
 }
